@@ -16,7 +16,7 @@ const maxInlineDepth = 10
 
 func isSpecHelper(f *types.Func) bool {
 	switch f.Name() {
-	case "old", "forallInt", "existsInt", "forallReal", "existsReal", "implies", "assert", "assume", "iff", "fresh", "memEq", "lemmaUse", "wfd", "bnd", "sameSlice", "iterStart", "allocd":
+	case "old", "forallInt", "existsInt", "forallReal", "existsReal", "implies", "assert", "assume", "iff", "fresh", "memEq", "lemmaUse", "wfd", "bnd", "sameSlice", "iterStart", "allocd", "ghostRank":
 		return f.Pkg() != nil && strings.Contains(f.Pkg().Path(), "tdewolff/canvas")
 	}
 	return false
@@ -1085,6 +1085,19 @@ func (x *Exec) callSpecHelper(s *State, fn *types.Func, call *ast.CallExpr) []*T
 		os := x.oldStates[len(x.oldStates)-1]
 		// evaluate in the old heap with the current env (parameters denote entry values in clauses)
 		tmp := &State{env: s.env, heap: map[string]*Term{}, assumes: s.assumes}
+		// parameters denote their entry values inside old()
+		if ent := x.frames[0].entry; ent != nil && len(x.frames) == 1 || (ent != nil && x.inTopClause()) {
+			ne := make(map[types.Object]*Term, len(s.env))
+			for k, v := range s.env {
+				ne[k] = v
+			}
+			for _, po := range x.frames[0].paramObjs {
+				if v, ok := ent.env[po]; ok {
+					ne[po] = v
+				}
+			}
+			tmp.env = ne
+		}
 		for k, v := range os.heap {
 			tmp.heap[k] = v
 		}
@@ -1199,6 +1212,10 @@ func (x *Exec) callSpecHelper(s *State, fn *types.Func, call *ast.CallExpr) []*T
 		v := x.eval(tmp, call.Args[1])
 		x.dry--
 		return []*Term{v}
+	case "ghostRank":
+		// an arbitrary but fixed integer attached to a reference (well-founded orders on pointer structures)
+		v := x.eval(s, call.Args[0])
+		return []*Term{x.uf("ghost_rank", SInt, v)}
 	case "allocd":
 		// the reference (or slice block) was allocated before now
 		v := x.eval(s, call.Args[0])
@@ -1268,4 +1285,9 @@ func valueOnly(sig *types.Signature) bool {
 		}
 	}
 	return true
+}
+
+// inTopClause: evaluating a clause of the function under verification (not of a callee)
+func (x *Exec) inTopClause() bool {
+	return len(x.oldStates) > 0 && x.oldStates[len(x.oldStates)-1] == x.frames[0].entry
 }
